@@ -28,17 +28,9 @@ def is_zero(c):
     return node(c) is T_ZERO
 
 
-def run(ctx):
-    py = load()
+def _invariants(ctx, py):
+    """Inv2D of the integrator, of correct_pva, of the output transform and of the sd / feed-forward assembly (trace domain)"""
     S = py.strapdown
-    ctx.under_contract("pyins.strapdown.Integrator.__init__ (2D)", "pyins.strapdown.Integrator.set_pva (2D)",
-                       "pyins._numba_integrate.integrate (py_func, with_altitude=False path)",
-                       "pyins.error_model.InsErrorModel.correct_pva (2D)", "pyins.error_model.InsErrorModel.transform_to_output (2D)",
-                       "pyins.filters._compute_sd", "pyins.filters._compute_feedforward_result", "pyins.filters.run_feedback_filter (frame of integrator writes)",
-                       "pyins.measurements.Position/NedVelocity.compute_matrices (2D shapes)")
-    ctx.trust("IEEE-754: x+0.0 = x, x-0.0 = x, x*1.0 = x, 0.0*x = 0.0 for finite x (up to the sign of zero)",
-              "pandas / numpy structural operations on object arrays (executed)", "numba faithful (A4)")
-    ctx.assume("finite covariance matrices and error vectors", "C09 loop contract for the filter-level clause (lemma)")
     t0 = time.time()
     deferred = []
     real_ob = ctx.ob
@@ -85,6 +77,21 @@ def run(ctx):
                cex=None if ok_set else dict(supplied_VD="free value q_VD", next_row_alt=repr(node(it.trajectory.iloc[k]["alt"]))[:200],
                                             overwritten_row_VD=repr(node(it.trajectory.iloc[k - 1]["VD"]))[:80]),
                native=None if ok_set else (lambda: _native_integrator(py, True)))
+        # the same with states whose labels are stored in another (consistent) order: VD is addressed by LABEL
+        order_ = ["heading", "pitch", "roll", "VD", "VE", "VN", "alt", "lon", "lat"]
+        p2, q3 = t_pva("p")[order_], t_pva("w", t0=0.2)[order_]
+        it3 = S.Integrator(p2, False)
+        it3.integrate(inc.iloc[:2])
+        it3.set_pva(q3)
+        it3.integrate(inc.iloc[2:3])
+        k3 = len(it3.trajectory) - 1
+        ok_lab = (all(is_zero(it3.trajectory.iloc[j]["VD"]) for j in range(k3 + 1)) and is_zero(it3.get_pva()["VD"])
+                  and node(it3.trajectory.iloc[k3]["alt"]) is node(q3["alt"]) and node(it3.trajectory.iloc[k3 - 1]["heading"]) is node(q3["heading"])
+                  and all(is_zero(it3.velocity_n[j, 2]) for j in range(k3 + 1)))
+        dctx.ob("C13.set_pva.inv2d.labels_in_another_order", "T", ok_lab, "trace-domain(DAG identity)", 0.0,
+               "initial and overwriting states with labels stored as %s: every row's VD (by label) is the literal 0.0, the overwritten row keeps the supplied heading, altitude follows the supplied one" % order_,
+               cex=None if ok_lab else dict(label_order=order_, VD_cells=[repr(node(it3.trajectory.iloc[j]["VD"]))[:60] for j in range(k3 + 1)]),
+               native=None if ok_lab else (lambda: _native_label_order(py)))
         pr = it.predict(t_increments([0.4]).iloc[0])
         dctx.ob("C13.predict.inv2d", "T", is_zero(pr["VD"]) and node(pr["alt"]) is node(q["alt"]), "trace-domain(DAG identity)", 0.0,
                "predicted row: VD literal 0.0, alt the supplied cell")
@@ -138,6 +145,20 @@ def run(ctx):
                "the compensated trajectory's alt and VD cells are the input cells (alt + 0.0, VD - 0.0)")
 
     flush()
+
+
+def run(ctx):
+    py = load()
+    S = py.strapdown
+    ctx.under_contract("pyins.strapdown.Integrator.__init__ (2D)", "pyins.strapdown.Integrator.set_pva (2D)",
+                       "pyins._numba_integrate.integrate (py_func, with_altitude=False path)",
+                       "pyins.error_model.InsErrorModel.correct_pva (2D)", "pyins.error_model.InsErrorModel.transform_to_output (2D)",
+                       "pyins.filters._compute_sd", "pyins.filters._compute_feedforward_result", "pyins.filters.run_feedback_filter (frame of integrator writes)",
+                       "pyins.measurements.Position/NedVelocity.compute_matrices (2D shapes)")
+    ctx.trust("IEEE-754: x+0.0 = x, x-0.0 = x, x*1.0 = x, 0.0*x = 0.0 for finite x (up to the sign of zero)",
+              "pandas / numpy structural operations on object arrays (executed)", "numba faithful (A4)")
+    ctx.assume("finite covariance matrices and error vectors", "C09 loop contract for the filter-level clause (lemma)")
+    ctx.guard(_invariants, ctx, py)
 
     # ---- the feedback filter writes the integrator only through integrate / set_pva(correct_pva(get_pva(), .)) --
     ctx.guard(_filter_frame, ctx, py)
@@ -268,8 +289,26 @@ def _filter_standin(ctx, py):
                 n_runs, fails, time_s=time.time() - t0)
 
 
+def _native_label_order(py):
+    S = py.strapdown
+    order_ = ["heading", "pitch", "roll", "VD", "VE", "VN", "alt", "lon", "lat"]
+    pva, inc = _float_setup(py, 6)
+    it = S.Integrator(pva[order_], False)
+    it.integrate(inc.iloc[:3])
+    q = pva.copy()
+    q["VD"], q["alt"], q["heading"] = -2.5, 420.0, 77.0
+    q.name = float(it.get_time())
+    it.set_pva(q[order_])
+    it.integrate(inc.iloc[3:])
+    tr = it.trajectory
+    bad = bool(np.any(tr["VD"].values != 0.0) or np.any(tr["alt"].values[3:] != 420.0) or tr["heading"].values[3] != 77.0)
+    return dict(reproduced=bad, label_order=order_, VD_column=list(map(float, tr["VD"].values)), heading_of_overwritten_row=float(tr["heading"].values[3]))
+
+
 def replay(obligation, cex):
     py = load()
+    if obligation == "C13.set_pva.inv2d.labels_in_another_order":
+        return _native_label_order(py)
     if obligation == "C13.set_pva.inv2d":
         return _native_integrator(py, True)
     if obligation.startswith("C13.kernel") or obligation.startswith("C13.init"):
